@@ -47,6 +47,7 @@ def flags():
         _FLAGS = {'print': not d['print-not-rescoped'], 'casts': not d['cast-unpicklable'], 'dtsym': not d['dtsym-not-rescoped'],
                   'members': not d['member-parent-lost'], 'frontend_state': not d['unpickle-rescoping-not-identity'],
                   'assoc_shadow_root': not d['selector-of-shadowing-associate-misscoped'],
+                  'parent_object_members': not d['parentless-rescope-caches-member-entries'],
                   'procedure_links': not d['procedure-link-dropped']}
     return _FLAGS
 
@@ -104,13 +105,17 @@ def _first_unequal(a, b):
                     return ('unpickle-rescoping-not-identity',
                             f'{path}.symbol_attrs[{k}]: entry for the intrinsic name only in the unpickled unit (intrinsic names are '
                             f're-attached to the closest scope)')
+                if p is None and '%' in str(k):
+                    return ('member-entry-cached-by-parentless-rescope',
+                            f'{path}.symbol_attrs[{k}]: entry for a derived-type member only in the unpickled unit (the contained unit '
+                            f'was rescoped before it was re-attached to its parent and cached {q})')
                 if p is None or q is None:
                     return ('symtab-entry-missing', f'{path}.symbol_attrs[{k}] only on one side')
                 if p != q:
                     for kk in sorted(set(p.__dict__) | set(q.__dict__)):
                         r = rec(p.__dict__.get(kk), q.__dict__.get(kk), f'{path}.symbol_attrs[{k}].{kk}', depth + 1)
                         if r:
-                            return (r[0] if r[0].startswith(('symtab', 'unpickle-rescoping')) else f'symtab.{kk}:{r[0]}', r[1])
+                            return (r[0] if r[0].startswith(('symtab', 'unpickle-rescoping', 'member-entry-cached')) else f'symtab.{kk}:{r[0]}', r[1])
             return ('symtab', path)
         if isinstance(x, ir.Node) and type(x) is type(y):
             for k in x.args:
@@ -306,6 +311,13 @@ def roundtrip_checks(ctx, case, u, u2, label):
             fail(f'{pre}:not-equal:{comp}', f'unpickled != original (also with ProcedureType links ignored); first difference: {fine}')
     # 5. symbol-table contents (entries of intrinsic procedure names are created wherever such a name is re-attached)
     t1, t2 = _no_intrinsics(s1['symtab']), _no_intrinsics(s2['symtab'])
+    # entries 'a%b' of derived-type members are a cache filled when a member is first looked up: one that exists only in the
+    # unpickled unit is not a difference of contents (loki's own == does see it: judged in step 4, listed finding)
+    if len(t1) == len(t2):
+        extra = sum(1 for (_, x), (_, y) in zip(t1, t2) for k in y if '%' in k and k not in x)
+        if extra:
+            ctx.count('member-cache-entries-only-in-unpickled-unit', extra)
+            t2 = [[lab, {k: v for k, v in y.items() if not ('%' in k and k not in x)}] for (_, x), (lab, y) in zip(t1, t2)]
     if inv.ancestors:
         t1, t2 = U.loose_type(t1), U.loose_type(t2)
     if t1 != t2 and not reported:
